@@ -219,8 +219,8 @@ def to_blackbird(prog: Program, version: str = "1.0") -> blackbird.BlackbirdProg
                 op["kwargs"]["select"] = cmd.op.select
 
             if cmd.op.p:
-                # argument is quadrature phase
-                op["args"] = cmd.op.p
+                # argument is quadrature phase (a copy: the list is edited below)
+                op["args"] = list(cmd.op.p)
 
             if op["op"] == "MeasureFock":
                 # special case to take into account 'dark_counts' keyword argument
